@@ -3,7 +3,7 @@ use crate::data::{DisplayForCustomItem, SimpleDataList, SimpleStackFrame, UNIT_I
 use crate::error::DataError;
 use crate::instruction::SimpleInstruction;
 use garnish_lang_traits::helpers::iterate_concatenation_mut;
-use garnish_lang_traits::{Extents, GarnishData, GarnishDataType, Instruction, SymbolListPart, TypeConstants};
+use garnish_lang_traits::{Extents, GarnishData, GarnishDataType, GarnishNumber, Instruction, SymbolListPart, TypeConstants};
 use std::collections::hash_map::DefaultHasher;
 use std::fmt::{Debug, Display, Formatter};
 use std::hash::Hash;
@@ -327,7 +327,11 @@ where
                 Some(crate::data::SimpleData::Slice(list, range)) => match (self.get_data().get(*list), self.get_data().get(*range)) {
                     (Some(crate::data::SimpleData::List(_, _)), Some(crate::data::SimpleData::Range(start, end))) => {
                         let start = self.get_number(*start)?.to_integer();
-                        let end = self.get_number(*end)?.to_integer();
+                        // a range holds its last number, extents end one past the last item
+                        let end = match self.get_number(*end)?.to_integer().increment() {
+                            Some(end) => end,
+                            None => SimpleNumber::max_value(),
+                        };
                         let iter = self.get_list_item_iter(*list, Extents::new(start, end))?;
 
                         for item in iter {
@@ -351,10 +355,14 @@ where
                                     }
                                 }
 
+                                // a range that ends before it starts holds no numbers, positions before the first item hold nothing
+                                let first = (*start).max(0);
+                                let count = if *end < first { 0 } else { (*end as i64 - first as i64) as usize + 1 };
+
                                 top_level_con_items
                                     .iter()
-                                    .skip(*start as usize)
-                                    .take((end - start) as usize + 1)
+                                    .skip(first as usize)
+                                    .take(count)
                                     .map(usize::clone)
                                     .for_each(|i| items.push(i));
                             }
